@@ -217,14 +217,25 @@ where
                         match e {
                             TestError::Fail(_reason, minimal) => {
                                 // re-run the minimal case once more to capture its own signature/detail
-                                let v = test(&mut **state_cell.borrow_mut(), &minimal);
+                                let mut v = test(&mut **state_cell.borrow_mut(), &minimal);
+                                // a failure observed through process-wide state (a panic on some
+                                // library thread while several workers were running) may have been
+                                // attributed to the wrong case: give it two more chances, then
+                                // report it as unreproducible (inconclusive), never as a violation
+                                for _ in 0..2 {
+                                    if matches!(v, Verdict::Fail(_)) {
+                                        break;
+                                    }
+                                    v = test(&mut **state_cell.borrow_mut(), &minimal);
+                                }
                                 let (signature, detail) = match v {
                                     Verdict::Fail(b) => (b.signature, b.detail),
-                                    other => (
-                                        "unstable".to_string(),
-                                        format!("minimal case did not fail again on re-run: {:?}", other),
-                                    ),
+                                    other => {
+                                        local.inconclusive.push(format!("a failure was observed but the shrunk case passes when re-run alone (attribution across workers?): {:?}", other));
+                                        (String::new(), String::new())
+                                    }
                                 };
+                                if !signature.is_empty() {
                                 local.failures.push(FailureRec {
                                     property: cfg.property.clone(),
                                     part: cfg.part.clone(),
@@ -234,6 +245,7 @@ where
                                     seed: cfg.seed,
                                     case: serde_json::to_value(&minimal).unwrap_or(serde_json::Value::Null),
                                 });
+                                }
                             }
                             TestError::Abort(reason) => {
                                 local.inconclusive.push(format!("proptest aborted: {}", reason));
